@@ -400,7 +400,17 @@ pub fn gen_history(c: &mut Choices, fam: Option<FamId>) -> History {
     let init = gen_init(c, fam, &keys[0].0);
     let n = c.below(13);
     let nk = keys.len();
-    let ops = (0..n).map(|_| gen_op(c, fam, nk)).collect();
+    let mut ops: Vec<Op> = Vec::with_capacity(n);
+    for _ in 0..n {
+        // re-applying an earlier call (idempotent re-set, double removal, ...) is a shape of its own
+        if !ops.is_empty() && c.chance(36) {
+            let j = c.below(ops.len());
+            let o = ops[ops.len() - 1 - j].clone();
+            ops.push(o);
+        } else {
+            ops.push(gen_op(c, fam, nk));
+        }
+    }
     History { fam, keys, init, ops, fault_at: None }
 }
 
@@ -443,6 +453,7 @@ pub fn alphabet(fam: FamId) -> Vec<Op> {
         Op::SetSocket { tcp: false, addr: v6, k: 0 },
         Op::SetSocket { tcp: true, addr: v4, k: 1 },
         Op::SetSocket { tcp: true, addr: v6, k: 0 },
+        Op::SetSocket { tcp: false, addr: "[::ffff:192.0.2.1]:9002".parse().unwrap(), k: 0 },
         Op::RemoveSocket { tcp: false, v6: false, k: 0 },
         Op::RemoveSocket { tcp: false, v6: true, k: 0 },
         Op::RemoveSocket { tcp: true, v6: false, k: 0 },
